@@ -400,8 +400,27 @@ class Session:
                     ob.model = model_to_dict(m2) if m2 is not None else None
                     self._attach_replay(ob, replay, m2, solver_out=f"{b2}: sat")
                     return ob
-            self._not_proved(ob, replay, model, backend)
+            self._solver_unknown(ob, replay, model, backend)
         return ob
+
+    def _solver_unknown(self, ob, replay, model, backend):
+        """The solver neither proved nor refuted a generated obligation within its budget (`unknown`, also after the retry).
+        That is not a refutation: never reported as a violation on its own (budgets are wall-clock, a loaded machine must not
+        turn a proof into an alarm). If the replay search finds a failing input on the real code it is a violation with that
+        input; otherwise the obligation becomes an engine limit of its unit (second component of the id), decided by the
+        unit's bounded stand-in like any other engine limit."""
+        ob.model = model_to_dict(model) if model is not None else None
+        if replay is not None:
+            self._attach_replay(ob, replay, model, solver_out=f"{backend}: unknown")
+            if (ob.replay or {}).get("confirmed_on_real_code"):
+                ob.status = "failed"
+                return
+        parts = ob.id.split("/")
+        ob.status = "engine-limit"
+        ob.backend = "engine"
+        ob.replay = None
+        ob.detail = dict(ob.detail or {}, reason=f"solver budget exhausted without proof or counter-model ({backend}: unknown)",
+                         group=parts[1] if len(parts) > 1 else None)
 
     def _not_proved(self, ob, replay, model, backend, reason="solver gave no proof (unknown)"):
         """An obligation the verifier could not discharge. It is a violation when a replay search on the real code
